@@ -210,7 +210,7 @@ def explore(world, origin, hist, depth_left, monitors, stats, split, deadline):
     ok = leaf_check(world, origin, hist, label, bundle, monitors, stats,
                     doc_log=(doc, log) if first else None)
     first = False
-    if ok and depth_left > 1:
+    if (ok or getattr(world, 'continue_after_failure', False)) and depth_left > 1:
       nh = hist + [(label, bundle)]
       if split:
         children.append((nh, depth_left - 1))
